@@ -80,7 +80,12 @@ func init() {
 			vt = append(vt, restartLateParams{Tail: 1, Late: 2, Third: false, Delay: d, Size: 2})
 		}
 		vt = append(vt, vq...)
-		for _, prop := range []string{"C02", "C05"} {
+		for _, prop := range []string{"C02", "C03"} {
+			Register(&Job{Name: prop + "/engine/busy-worker-throughput3", Prop: prop, Bound: 2, BoundT: 3, Budget: 40, BudgetT: 600,
+				Desc: "build with actor.defaultThroughput rewritten to 3 (declared parameter change): an actor that sends itself the next tick from every tick (8 ticks) plus an outside sender (2 messages), so that one worker runs past the throughput budget without ever finding the inbox empty; quiet engine, receivers yield: one Receive at a time, each after the previous, every message once, idle and empty at the end",
+				Make: func() vsched.Instance { return engSelfSend(8, 2) }})
+		}
+		for _, prop := range []string{"C01", "C02", "C05"} {
 			Register(&Job{Name: prop + "/engine/restart-late-senders", Prop: prop, Bound: 2, BoundT: 3, Budget: 40, BudgetT: 600,
 				Desc: "message 0 panics once with 0-1 messages queued behind it; the crashing Receive starts a thread sending 1-2 more messages during the restart (delay 0 and >0), the first delivery to the new incarnation starts a third sender; quiet engine (event stream detached), receivers yield inside Receive: one worker at a time, each Receive after the previous, exactly-once, order, new incarnation gets everything behind the failed message",
 				Make: func() vsched.Instance { return engRestartLate(vq) }})
@@ -106,6 +111,15 @@ func init() {
 		Register(&Job{Name: "C10/engine/respawn-while-stopping", Prop: "C10", Bound: 2, BoundT: 3, Budget: 40, BudgetT: 600, Shards: 4,
 			Desc: "an actor with 1-2 children is poisoned/stopped while another thread spawns the same id again and a third polls GetPID (quiet engine): as long as a child of the old actor is alive the old actor has not stopped, so the id is still taken - no second Producer run, GetPID non-nil",
 			Make: func() vsched.Instance { return engRespawnRace(rr) }})
+		var sw []swrParams
+		for _, st := range []int{1, 2} {
+			for _, o := range []int{0, 1, 2} {
+				sw = append(sw, swrParams{Stop: st, Others: o}, swrParams{Stop: st, Others: o, Child: true})
+			}
+		}
+		Register(&Job{Name: "C10/engine/stop-wait-respawn", Prop: "C10", Bound: 2, BoundT: 3, Budget: 40, BudgetT: 600, Shards: 4,
+			Desc: "stop/poison an actor (root or child), wait for the stop context, spawn the same id again at once while 0-2 other pending stop requests are still being acknowledged: the producer of the respawn runs once, no ActorDuplicateIdEvent, the new actor owns the id (GetPID, delivery)",
+			Make: func() vsched.Instance { return engStopWaitRespawn(sw) }})
 		Register(&Job{Name: "C10/engine/respawn-histories", Prop: "C10", Bound: 0, BoundT: 1, Budget: 40, BudgetT: 900,
 			Desc: "all sequences of length<=4 (quick) over {spawn a, spawn b, stop+wait a, poison+wait a, send a, getpid a} against a map[id]incarnation model, quiescent steps",
 			Make: func() vsched.Instance { return engRespawn(4) }})
@@ -163,8 +177,9 @@ func init() {
 			clean = append(clean, reqParams{Requesters: 1, Replies: k}, reqParams{Requesters: 2, Replies: k}, reqParams{Requesters: 2, Replies: k, TwoTargets: true})
 		}
 		clean = append(clean, reqParams{Requesters: 1, Replies: 1, SlowReply: true}, reqParams{Requesters: 1, Replies: 1, LateReply: true}, reqParams{Requesters: 2, Replies: 0, LateReply: true})
+		clean = append(clean, reqParams{Requesters: 1, Replies: 1, LateResult: true}, reqParams{Requesters: 2, Replies: 1, LateResult: true, TwoTargets: true}, reqParams{Requesters: 1, Replies: 1, Second: true})
 		for _, k := range []int{2, 3} {
-			multi = append(multi, reqParams{Requesters: 1, Replies: k}, reqParams{Requesters: 2, Replies: k, TwoTargets: true}, reqParams{Requesters: 1, Replies: k, SlowReply: true})
+			multi = append(multi, reqParams{Requesters: 1, Replies: k}, reqParams{Requesters: 2, Replies: k, TwoTargets: true}, reqParams{Requesters: 1, Replies: k, SlowReply: true}, reqParams{Requesters: 1, Replies: k, Second: true})
 		}
 		big := []reqParams{{Requesters: 3, Replies: 1}, {Requesters: 3, Replies: 1, TwoTargets: true}, {Requesters: 2, Replies: 1, SlowReply: true, TwoTargets: true}}
 		Register(&Job{Name: "C11/engine/request-reply", Prop: "C11", Bound: 2, BoundT: 3, Budget: 40, BudgetT: 600,
@@ -195,6 +210,9 @@ func init() {
 		Register(&Job{Name: "C12/engine/concurrent-broadcasters", Prop: "C12", Bound: 2, BoundT: 3, Budget: 40, BudgetT: 600,
 			Desc: "2 subscribers, 2 concurrent broadcasters x 2 events: exactly once each, per-broadcaster order",
 			Make: func() vsched.Instance { return engEventConc(2, 2) }})
+		Register(&Job{Name: "C12/engine/subscriber-dies", Prop: "C12", Bound: 1, BoundT: 2, Budget: 40, BudgetT: 600,
+			Desc: "three subscribers subscribed in each of the 6 orders, the middle-named one stops without unsubscribing, then two broadcasts: the two live subscribers each get its ActorStoppedEvent and both broadcasts exactly once, in order",
+			Make: func() vsched.Instance { return engEventDyingSubscriber() }})
 		Register(&Job{Name: "C12/engine/lifecycle-events", Prop: "C12", Bound: 1, BoundT: 3, Budget: 40, BudgetT: 600,
 			Desc: "monitor subscribed while an actor is spawned, crashes+restarts, a duplicate id is spawned, a dead letter is sent and the actor is poisoned: one event of the right type per occurrence",
 			Make: func() vsched.Instance { return engEngineEvents() }})
@@ -223,6 +241,17 @@ func init() {
 			Make: func() vsched.Instance { return engTree(clean) }})
 		Register(&Job{Name: "C08/engine/tree-shutdown-large", Prop: "C08", Tier: "thorough", Bound: 1, BoundT: 2, Budget: 45, BudgetT: 900,
 			Desc: "tree shapes 1x3, 2x2", Make: func() vsched.Instance { return engTree(big) }})
+		var odd []treeParams
+		for _, sh := range [][2]int{{1, 1}, {1, 2}, {2, 1}} {
+			for _, st := range []int{1, 2} {
+				for _, ex := range []int{9, 10, 11} {
+					odd = append(odd, treeParams{Depth: sh[0], Fan: sh[1], Stop: st, Extra: ex})
+				}
+			}
+		}
+		Register(&Job{Name: "C08/engine/tree-shutdown-awkward-children", Prop: "C08", Bound: 1, BoundT: 2, Budget: 45, BudgetT: 900, Shards: 6,
+			Desc: "tree shapes 1x1, 1x2, 2x1; a leaf panics inside its final Stopped handler; the whole tree is spawned WithContext(an already cancelled context); a leaf that was poisoned by a third party is still inside its Stopped handler when the root's shutdown reaches it: descendants have finished handling Stopped and are unregistered before their parent handles Stopped and before the root's stop context is done, nothing hangs",
+			Make: func() vsched.Instance { return engTree(odd) }})
 		names := map[int][2]string{
 			1: {"child-self-stop-races-shutdown", "trigger:D22"}, 2: {"child-crash-races-shutdown", "trigger:D4"},
 			3: {"third-party-poison-races-shutdown", "trigger:D3"}, 5: {"child-max-restarts-races-shutdown", "trigger:D3"},
